@@ -41,6 +41,10 @@ SPECS["C10"] = dict(
              pkg="sdk/python/arvados", entry="pycheck_c10_ranges", harness=[], replay="cpython",
              params=dict(quick=dict(maxsize=6, maxsize_rr=2), thorough=dict(maxsize=12, maxsize_rr=3)),
              witnesses=["check_first_block", "check_locators_and_ranges", "check_replace_range"]),
+        dict(name="python-escape", kind="crosshair", file="pycheck/c10_normalize.py", subject="sdk/python/arvados/_normalize_stream.py", subject_env="PYCHECK_NORMALIZE",
+             pkg="sdk/python/arvados", entry="pycheck_c10_normalize", harness=[], replay="cpython",
+             params=dict(quick=dict(maxlen=2), thorough=dict(maxlen=3)), timeout=dict(quick=400, thorough=2400),
+             witnesses=["check_escape"]),
         dict(name="mutate", pkg="sdk/go/manifest", harness=C10_H, entry="GosymH_C10_mutate",
              params=dict(quick=dict(maxlen=2), thorough=dict(maxlen=4)), witnesses=["done", "accepted", "rejected"]),
         dict(name="load-mutate", pkg="sdk/go/arvados", harness=C10_AH, entry="GosymH_C10_load_mutate",
